@@ -141,10 +141,10 @@ Definition bk_delete (bk : bstate) (key : str) (now : Z) : bstate * result :=
 Definition bk_contains (bk : bstate) (key : str) (now : Z) : bstate * result :=
   (bk, RBool (is_some (blive now key bk))).
 
-(* Cache.incr tests `expire_time is not None and expire_time < now`: at now = expire_time the item
-   counts as present although no lookup can see it. *)
+(* Cache.incr tests `expire_time is not None and expire_time <= now` (since the fix of D6; it used to be
+   `<`, which let incr see an item at now = expire_time that no lookup can see). *)
 Definition incr_dead (now : Z) (e : ent) : bool :=
-  match snd e with None => false | Some t => t <? now end.
+  match snd e with None => false | Some t => t <=? now end.
 
 Definition bk_incr (bk : bstate) (key : str) (delta : Z) (dflt : option Z) (now : Z) : bstate * result :=
   let missing := match dflt with
@@ -438,23 +438,6 @@ Fixpoint clock_ok (t0 : Z) (h : list (op * Z)) : bool :=
   match h with
   | [] => true
   | (_, now) :: r => (t0 <=? now) && clock_ok now r
-  end.
-
-(* incr/decr called exactly at the expiry instant of its key (known defect of Cache.incr, D6) *)
-Definition at_expiry_instant (c : cfg) (bk : bstate) (o : op) (now : Z) : bool :=
-  match o with
-  | OIncr k _ ver | ODecr k _ ver =>
-      match bfind (make_key (c_prefix c) (ver_of c ver) k) bk with
-      | Some (_, Some t) => t =? now
-      | _ => false
-      end
-  | _ => false
-  end.
-
-Fixpoint hits_expiry_instant (c : cfg) (bk : bstate) (h : list (op * Z)) : bool :=
-  match h with
-  | [] => false
-  | (o, now) :: r => at_expiry_instant c bk o now || hits_expiry_instant c (fst (dj_step c bk o now)) r
   end.
 
 (* decidable equality of results, for the correspondence run *)
